@@ -40,6 +40,9 @@ func genC07(t *rapid.T) CaseC07 {
 	case r == 3:
 		c.Src = "boost-empty-key"
 		c.Map, c.Steps, _ = boostEmptyKey(t)
+	case r == 4:
+		c.Src = "boost-deep-list-in-list"
+		c.Map, c.Steps, _ = boostDeepLIL(t)
 	default:
 		indexed := rapid.Bool().Draw(t, "indexed")
 		lil := !indexed && rapid.IntRange(0, 3).Draw(t, "lil") == 0
